@@ -332,6 +332,9 @@ def beh_to_case(b):
             state = "down"
         elif t == "ret":
             state = "idle"
+    if state == "op" and torn:
+        # the behaviour was cut right after a torn write: the only continuation is the crash
+        plans[j] = {"at": nfs - 1, "bytes": 1, "after": True, "rec": []}
     vals = [bytes([65 + i]) * 3 for i in range(maxv)]
     return Hist([b"a", b"bb"], vals, ops), plans
 
@@ -412,7 +415,8 @@ def mutate_impl(t, rng):
         return None
     i = rng.choice(fs)
     # (dropping a torn write is not a corruption: an empty and a torn temporary look the same in the listing)
-    if rng.random() < 0.5 and t["ev"][i]["op"] != "write":
+    # (nor is dropping a call that failed and changed nothing, when the crash follows it)
+    if rng.random() < 0.5 and t["ev"][i]["op"] != "write" and t["ev"][i]["ok"]:
         del t["ev"][i]
     else:
         e = t["ev"][i]
